@@ -110,6 +110,45 @@ def point_identity(D, NA, rad, pos, seed, points=4):
     return True
 
 
+def numeric_identity(D, NA, pos, conds, seed, points=3, digits=60):
+    """high-precision evaluation of D at random rational geometries: 'zero' (|D| < 10^-40 at every point), 'nonzero' (|D| > 10^-20 at some point: a
+    sound refutation) or None.  Used when the exact comparison cannot be trusted because value and gradient use different closed forms
+    (acos with an explicit sign on one side, atan2 on the other): norms, square roots and the sign test are evaluated, not kept formal."""
+    import random
+    import mpmath
+    from sympy.core.function import AppliedUndef
+    rnd = random.Random(seed)
+    mpmath.mp.dps = digits
+    verdict = "zero"
+    for _ in range(points):
+        sub = {}
+        for v in pos:
+            for c in v:
+                sub[c] = sp.Rational(rnd.randint(-5000, 5000), rnd.randint(1, 97))
+        e = D
+        for s_, q, _v in NA.atoms:
+            e = e.xreplace({s_: sp.sqrt(q)})
+        e = e.xreplace(sub)
+        for a_ in list(e.atoms(AppliedUndef)):
+            if str(a_.func) == "ite" and len(a_.args) == 3:
+                c_ = conds.get(str(a_.args[0]))
+                if isinstance(c_, tuple) and len(c_) == 3 and c_[0] in ("<", "<=", ">", ">="):
+                    l_, r_ = [sp.sympify(x_).xreplace(sub) if hasattr(x_, "xreplace") else sp.sympify(x_) for x_ in c_[1:]]
+                    for s_, q, _v in NA.atoms:
+                        l_, r_ = l_.xreplace({s_: sp.sqrt(q.xreplace(sub))}), r_.xreplace({s_: sp.sqrt(q.xreplace(sub))})
+                    t_ = {"<": l_ < r_, "<=": l_ <= r_, ">": l_ > r_, ">=": l_ >= r_}[c_[0]]
+                    if t_ in (sp.true, sp.false):
+                        e = e.xreplace({a_: a_.args[1] if t_ == sp.true else a_.args[2]})
+        if e.atoms(AppliedUndef) or e.free_symbols:
+            return None
+        val = abs(sp.N(e, digits))
+        if val > sp.Float("1e-20"):
+            return "nonzero"
+        if not val < sp.Float("1e-40"):
+            verdict = None
+    return verdict
+
+
 def interaction_fold(f, NA, pos, env_by_param=None):
     roots = {}
 
@@ -166,7 +205,8 @@ def check_interaction(rep, F, cls, nbeads, symbolic=True):
     fv = F.one(C + cls + "::EvaluateVar")
     fg = F.one(C + cls + "::Grad")
     rep.analysed(fv); rep.analysed(fg)
-    V = interaction_fold(fv, NA, pos).returns[0][0]
+    fov = interaction_fold(fv, NA, pos)
+    V = fov.returns[0][0]
     if isinstance(V, (Matrix, tuple)):
         raise AnalysisBroken("%s::EvaluateVar does not fold to a scalar" % cls)
     total = sp.zeros(3, 1)
@@ -186,7 +226,8 @@ def check_interaction(rep, F, cls, nbeads, symbolic=True):
             return x
         return e.replace(lambda x: x.is_Pow and abs(x.exp) == sp.Rational(1, 2) and not x.base.is_Symbol, rep_)
     for k in range(nbeads):
-        G = interaction_fold(fg, NA, pos, {"bead": sp.Integer(k)}).returns[0][0]
+        fog = interaction_fold(fg, NA, pos, {"bead": sp.Integer(k)})
+        G = fog.returns[0][0]
         if not isinstance(G, Matrix) or G.shape != (3, 1):
             rep.broken("R7.1", "%s::Grad(bead=%d) does not fold to a 3-vector" % (cls, k))
             continue
@@ -195,7 +236,21 @@ def check_interaction(rep, F, cls, nbeads, symbolic=True):
             dV = NA.d(V, pos[k][c])
             D = atomise(sp.together(dV)) - atomise(sp.together(G[c]))
             ok = point_identity(D, NA, rad, pos, rep.seed + 7)
-            if ok and symbolic:
+            if not ok:
+                # sign / radical atoms are formal in the exact test: a refutation that involves them is confirmed by evaluation (value and gradient may use
+                # different but equivalent closed forms, e.g. atan2 against sign * acos)
+                from sympy.core.function import AppliedUndef
+                raw = dV - G[c]
+                if raw.atoms(AppliedUndef) or rad:
+                    cds = dict(getattr(fov, "conds", {}))
+                    cds.update(getattr(fog, "conds", {}))
+                    nv = numeric_identity(raw, NA, pos, cds, rep.seed + 13)
+                    if nv == "zero":
+                        ok = True
+                        how["numeric"] = how.get("numeric", 0) + 1
+                    elif nv is None:
+                        raise AnalysisBroken("%s: value and gradient use different closed forms and the comparison for bead %d, %s is not decided" % (cls, k, ax))
+            if ok and symbolic and not how.get("numeric"):
                 try:
                     ok = with_budget(60, NA.reduce_zero, D)
                     how["symbolic"] += 1
